@@ -1281,7 +1281,11 @@ fn arg_layout_compatible(
             effective_a2.verify_backward_compatible(effective_version, effective_b2, is_return_position)?;
             Ok(true)
         }
-        (a, b) => Ok(a.layout_compatible(b)),
+        // Passing by reference is only sound if each side's in-memory (native) definition is
+        // also its definition at the negotiated version. Otherwise the two native layouts can
+        // coincide by accident (one field removed, another of the same size added) while
+        // meaning different things.
+        (a, b) => Ok(a == a_effective && b == b_effective && a.layout_compatible(b)),
     }
 }
 
